@@ -1,5 +1,5 @@
 SPEC = {
-    "lean_modules": ["SemaModel.C19.Props"],
+    "lean_modules": ["SemaModel.C19.Props", "SemaModel.C19.TextKeys"],
     "lean_dirs": ["SemaModel/C19"],
     "harness": "c19",
     "harness_args": {"quick": ["-n", 1500], "thorough": ["-n", 60000]},
